@@ -5,6 +5,7 @@ import (
 	"cuelang.org/go/internal/verif/core"
 	_ "cuelang.org/go/internal/verif/h/c01"
 	_ "cuelang.org/go/internal/verif/h/c02"
+	_ "cuelang.org/go/internal/verif/h/c03"
 	_ "cuelang.org/go/internal/verif/h/c09"
 )
 
